@@ -424,10 +424,11 @@ func (t *avl[K, V]) _deleteMax(n *avlNode[K, V]) (*avlNode[K, V], *avlNode[K, V]
 		return n.left, n
 	}
 
-	var max *avlNode[K, V]
-	n.right, max = t._deleteMax(n.right)
+	var m *avlNode[K, V]
+	n.right, m = t._deleteMax(n.right)
 	n.size = 1 + t._size(n.left) + t._size(n.right)
-	return t.balance(n), max
+	n.height = 1 + max(t._height(n.left), t._height(n.right))
+	return t.balance(n), m
 }
 
 // Select returns the k-th smallest key in the AVL tree.
